@@ -64,7 +64,23 @@ pub fn invoice_string(spec: &Value) -> String {
     if !spec["amount"].is_null() {
         b = b.amount_milli_satoshis(num(&spec["amount"], 0));
     }
-    if spec["self_hint"].as_bool().unwrap_or(false) {
+    let other_node = PublicKey::from_secret_key(&Secp256k1::new(), &SecretKey::from_slice(&[0x77u8; 32]).unwrap());
+    if let Some(hints) = spec["hints"].as_array() {
+        let local: PublicKey = NODE_ID.parse().unwrap();
+        for h in hints {
+            let hops: Vec<RouteHintHop> = h.as_array().cloned().unwrap_or_default().iter().enumerate().map(|(i, is_local)| RouteHintHop {
+                cltv_expiry_delta: 80,
+                fees: RoutingFees { base_msat: 1000, proportional_millionths: 10 },
+                htlc_maximum_msat: Some(1_000_000),
+                htlc_minimum_msat: Some(1_000),
+                short_channel_id: i as u64,
+                src_node_id: if is_local.as_bool().unwrap_or(false) { local } else { other_node },
+            }).collect();
+            if !hops.is_empty() {
+                b = b.private_route(RouteHint(hops));
+            }
+        }
+    } else if spec["self_hint"].as_bool().unwrap_or(false) {
         let local: PublicKey = NODE_ID.parse().unwrap();
         b = b.private_route(RouteHint(vec![RouteHintHop {
             cltv_expiry_delta: 80,
